@@ -246,7 +246,8 @@ def parse_filter(filter):
     Return an AST tree of filter.
     Can be used to generate other language (SQL, etc.)
     '''
-    return FilterAST(hs_filter.parseString(filter, parseAll=True)[0])
+    return FilterAST(hs_filter.parseWithTabs().parseString(
+        filter, parseAll=True)[0])
 
 
 ## --- Generate python to apply filter
